@@ -996,6 +996,9 @@ func (s *ImportSpec) End() token.Pos {
 
 // End returns position of first character immediately after the node.
 func (s *ValueSpec) End() token.Pos {
+	if s.Tag != nil { // classfile field tag
+		return s.Tag.End()
+	}
 	if n := len(s.Values); n > 0 {
 		return s.Values[n-1].End()
 	}
